@@ -725,4 +725,46 @@ theorem nft_table_local (c : Call) (p : Pkt) (mark : Option String)
   · rw [nft_load_output]; simp
   · rw [nft_load_prerouting]; simp
 
+/-- Witness for the known finding `stale-owner-mark`: the new session is `--user bob`. -/
+def staleOwnerCall : Call :=
+  { port := 12300, dnsport := 12299, nslist := [], family := 2,
+    subnets := [⟨2, 0, false, "0.0.0.0", 0, 0, 0⟩],
+    udp := false, user := some "bob", group := none, tmark := "0x01" }
+
+/-- What a killed `--user alice` session on the same port left in mangle OUTPUT. -/
+def staleOwnerState : Ruleset :=
+  [(⟨.ipt false .mangle, .output⟩, [natOwnerRule { staleOwnerCall with user := some "alice" }])]
+
+/-- A TCP connection of alice. -/
+def staleOwnerPkt : Pkt :=
+  { fam6 := false, dst := 167772161, dport := 22, proto := .tcp, loc := true, dstLocal := false,
+    uid := "alice" }
+
+theorem staleOwner_diverted :
+    verdictNat ((natCmds staleOwnerCall).foldl applyCmd staleOwnerState) staleOwnerPkt = .divert 12300 := by
+  obtain ⟨h1, h2, _, h4, _⟩ := nat_setup_from staleOwnerCall staleOwnerState
+  have hv : isV6 staleOwnerCall.family = false := by decide
+  have hfam : staleOwnerCall.family = AF_INET ∨ staleOwnerCall.family = AF_INET6 := by decide
+  have hp : staleOwnerPkt.fam6 = isV6 staleOwnerCall.family := by decide
+  have hwf : ∀ s ∈ staleOwnerCall.subnets, Spec.WfEntry s ∧ s.fam = staleOwnerCall.family := by decide
+  simp only [hv] at h1 h2 h4
+  have hout : ((natCmds staleOwnerCall).foldl applyCmd staleOwnerState).get ⟨.ipt false .nat, .output⟩ =
+      [natJumpRule staleOwnerCall] := by rw [h2]; rfl
+  have hman : ((natCmds staleOwnerCall).foldl applyCmd staleOwnerState).get ⟨.ipt false .mangle, .output⟩ =
+      [natOwnerRule staleOwnerCall, natOwnerRule { staleOwnerCall with user := some "alice" }] := by
+    rw [h4]; rfl
+  unfold verdictNat
+  have hloc : staleOwnerPkt.loc = true := rfl
+  have hf6 : staleOwnerPkt.fam6 = false := rfl
+  simp only [hloc, hf6, if_true]
+  have hmark : (walkChain ((natCmds staleOwnerCall).foldl applyCmd staleOwnerState) (.ipt false .mangle)
+      staleOwnerPkt walkFuel .output staleOwnerPkt.mark).markOr staleOwnerPkt.mark = some "12300" := by
+    rw [show walkFuel = 3 + 1 from rfl, walkChain_succ, hman]
+    decide
+  rw [hmark]
+  have := nat_builtin_from staleOwnerCall _ staleOwnerPkt (some "12300") .output
+    (by rw [hv]; exact h1) (by rw [hv, hout]; simp) (by rw [hv, hout]; simp) hfam hp hwf
+  rw [hv] at this
+  rw [this]
+  decide
 end Sshuttle.Fw
